@@ -23,9 +23,10 @@ func init() {
 		Rule: "threads = all unordered pairs (with repetition) and selected triples of requests from a menu {introspection __schema, __type with fields, reflected struct fields, reflected methods with arguments, interface-typed field with __typename, " +
 			"union list with fragments, named fragment, variables, @skip/@include, mutation} against one cold root built fresh per execution, for reflection (by-name binding, @go directive, RegisterType), Resolver objects and an installed root resolver; " +
 			"every schedule with <= P preemptions (choice point = every Lock of Object.mu / FieldDef.mu / subLock, before acquisition). Oracle: each thread's canonical response equals the response of the same request alone on a fresh cold root; no deadlock; " +
+			"every instrumented field / package-variable access of pkg/ggql is checked on every schedule for a happens-before order (vector clocks over the mutex edges): an unordered conflicting pair is a data race; " +
 			"plus (same command) a free-running pass of the same bodies under the Go race detector. distinct = schedules executed; non-trivial = schedules with a preemption or a contended acquisition",
-		Technique:      "stateless model checking of the real implementation (preemption-bounded exhaustive interleaving enumeration under a cooperative scheduler over a sync shim) + free-running race-detector pass for the data-race conjunct",
-		Assumptions:    []string{"Lock-only choice points are sufficient given data-race freedom, which the race pass checks separately (sampling, labelled as such)", "2 and 3 goroutines; larger N only in the race pass"},
+		Technique:      "stateless model checking of the real implementation (preemption-bounded exhaustive interleaving enumeration under a cooperative scheduler over a sync shim, vector-clock happens-before race checking of every instrumented memory access on every schedule) + free-running race-detector pass as a complement",
+		Assumptions:    []string{"Lock-only choice points are sufficient given data-race freedom, which is checked on every explored schedule (instrumented accesses) and by the free-running race pass (sampling, labelled as such)", "2 and 3 goroutines; larger N only in the race pass"},
 		QuickBudget:    100 * time.Second,
 		ThoroughBudget: 25 * time.Minute,
 	})
@@ -53,6 +54,7 @@ func c12Menu() []c12Req {
 		{Name: "skip-include", Text: `{a @skip(if:false){id kid @include(if:true){id}} i @include(if:true) s @skip(if:true)}`},
 		{Name: "mutation", Text: `mutation M{set(s:"v") a{id}}`, Op: "M"},
 		// a field the reflection structs have nothing for: the lazy binding fails (and must fail again, not block, the next time)
+		{Name: "input-arguments", Text: `{pick(i: 1, e: RED, in: {min: 1, sub: {min: 2}}, ids: ["a"], m: [[1]]) a{pick(in: {min: 3})}}`},
 		{Name: "unbound-field", Text: `{a{ghost id} b{ghost}}`, Abstract: true},
 		{Name: "unbound-field-in-list", Text: `{as{id ghost} ghost}`, Abstract: true},
 	}
@@ -240,7 +242,7 @@ func runC12(c *core.Ctx) {
 	if c.Shard == 0 {
 		racePass(c, "c12")
 	}
-	c.R.Bound = fmt.Sprintf("%d scenarios (pairs at preemption bound %d, triples at %d); Lock-only choice points; + free-running race pass", len(scenarios), bound, map[bool]int{true: bound, false: 1}[c.Thorough()])
+	c.R.Bound = fmt.Sprintf("%d scenarios (pairs at preemption bound %d, triples at %d); Lock-only choice points; happens-before race check on every schedule; + free-running race pass", len(scenarios), bound, map[bool]int{true: bound, false: 1}[c.Thorough()])
 	if !completed {
 		c.Cap("deadline reached")
 	}
